@@ -75,8 +75,8 @@ class Foreign(Exception):
 def unjson(v):
     """Decode tagged JSON values (ill-typed test data)."""
     if isinstance(v, dict):
-        if "$" in v:
-            t = v["$"]
+        if "$tfsim$" in v:
+            t = v["$tfsim$"]
             if t == "bytes":
                 return v["v"].encode()
             if t == "pairs":
@@ -345,6 +345,9 @@ class World:
         self.evals = 0
         self.nontrivial = set()
         self.op_steps = {}
+        self.had_partial_remove = False
+        self.had_reset_then_insert = False
+        self._was_reset = False
         self.soft_foreign = 0
         self.state_trace = {}
         self.faulted = False
@@ -971,6 +974,31 @@ class World:
         clock_before = self.clock.now
 
         exp = self.expect(op)
+        n_before, n_after = len(pre_model.points), len(self.model.points)
+        if k in ("remove", "drop", "remove_all") and exp[0] == "ret":
+            if 0 < n_after < n_before:
+                self.had_partial_remove = True
+            if n_after == 0 and n_before > 0:
+                self._was_reset = True
+        if k in INSERTS and self._was_reset and n_after > n_before:
+            self.had_reset_then_insert = True
+        if k in INSERTS:
+            for pt in ([op.get("pt")] + list(op.get("pts") or [])):
+                if not isinstance(pt, dict) or not pt.get("time"):
+                    if isinstance(pt, dict) and pt.get("raw") is None:
+                        self.probe("time-less-point")
+                    continue
+                tj = pt["time"]
+                if tj.get("zone"):
+                    self.probe("time-in-named-zone")
+                elif "+" not in tj["iso"][10:] and "-" not in tj["iso"][10:]:
+                    self.probe("naive-time")
+                    if tj.get("fold"):
+                        self.probe("naive-time-in-fold")
+                elif not tj["iso"].endswith("+00:00"):
+                    self.probe("time-with-utc-offset")
+                if tj["iso"][:2] in ("17", "22"):
+                    self.probe("time-at-range-end")
         self.collabs = {}
         out = self.execute(i, op)
         disk.end_op()
@@ -1279,6 +1307,19 @@ class World:
                           % (k, _brief(op), msg), i)
             n = len(self.model.points)
             nm = len(want) if isinstance(want, list) else -1
+            if ctx["pre_valid"] or (self.auto_index and self.can("read")):
+                self.probe("read-served-with-valid-index")
+            else:
+                self.probe("read-served-by-scan")
+            if self.had_partial_remove:
+                self.probe("read-after-partial-remove")
+            if self.had_reset_then_insert:
+                self.probe("read-after-remove_all-then-insert")
+            ts = [p.t for p in self.model.points]
+            if any(a > b for a, b in zip(ts, ts[1:])):
+                self.probe("read-on-out-of-order-storage")
+            if k == "search" and 0 < nm < n:
+                self.probe("search-matched-proper-subset")
             if k == "search" and 0 < nm < n:
                 self.nontrivial.add((queryast.shape(op["q"]), n, nm,
                                      self._index_valid()))
